@@ -434,6 +434,32 @@ func c12(c *Ctx) {
 			}
 		}
 	})
+	// definitions that come close to a rule without breaking it (the rule is per message / per oneof / per field)
+	for _, nm := range nearMisses() {
+		req, err := spec.Request([]*spec.File{nm.f}, nil, "")
+		if err != nil {
+			c.R.Harness("near-miss definition does not link: " + nm.id + ": " + err.Error())
+			continue
+		}
+		for _, p := range plugin.Sebuf {
+			caseID := fmt.Sprintf("accept/near-miss/%s/%s", nm.id, p)
+			if !c.Want(caseID) {
+				continue
+			}
+			res := c.TB.Run(p, req, plugin.RunOpt{})
+			c.R.Eval(1)
+			rp := map[string]any{"proto": nm.f.Proto(), "plugin": p, "error": res.Error, "stderr": res.Stderr}
+			switch {
+			case res.Crash != "":
+				c.R.Violate(caseID, "crash", res.Crash, rp)
+			case res.HasError:
+				c.R.Violate(caseID, "refused-valid", res.Error, rp)
+			default:
+				c.R.Decided(caseID)
+				c.R.Count("acceptances_observed", 1)
+			}
+		}
+	}
 	// the structural corpus shared with C14/C15/C18 (many headers/types, header counts, shared request
 	// messages, multi-file packages, enum layouts, two API versions in one run) as acceptance probes
 	for _, rc := range l1Corpus(c, "c12l", 1000) {
@@ -491,4 +517,61 @@ func c12(c *Ctx) {
 		}
 	}
 	c.R.Sample(map[string]any{"case": "misuse/nullable-non-optional/top/none", "construct": "message Offender { string bad_field = 1 [(sebuf.http.nullable) = true]; }", "expect": "go-http and go-client answer with CodeGeneratorResponse.error naming bad_field/Offender and no files"})
+}
+
+
+type nearMiss struct {
+	id string
+	f  *spec.File
+}
+
+// nearMisses: valid definitions in which something a rule forbids within ONE message / oneof / field happens
+// across two of them.
+func nearMisses() []nearMiss {
+	var out []nearMiss
+	mk := func(id string, build func(pkg string, f *spec.File)) {
+		pkg := "c12.near." + strings.NewReplacer("-", "_", "/", "_").Replace(id)
+		f := &spec.File{Path: strings.ReplaceAll(pkg, ".", "/") + ".proto", Package: pkg, GoImport: "lab/gen/c12near", GoName: "c12near"}
+		build(pkg, f)
+		root := f.Messages[len(f.Messages)-1].Name
+		f.Services = []*spec.Service{{Name: "NearService", Methods: []*spec.Method{{Name: "Call", In: "." + pkg + "." + root, Out: "." + pkg + "." + root, HTTP: &spec.HTTP{Path: "/near", Verb: 2}}}}}
+		out = append(out, nearMiss{id, f})
+	}
+	in := func(pkg, m string) string { return "." + pkg + "." + m }
+	varMsgs := func(f *spec.File) {
+		f.Messages = append(f.Messages, &spec.Message{Name: "VarA", Fields: []*spec.Field{spec.F("text", 1, spec.String)}}, &spec.Message{Name: "VarB", Fields: []*spec.Field{spec.F("num", 1, spec.Int32)}})
+	}
+	mk("two-discriminated-oneofs/same-oneof_value-in-both", func(pkg string, f *spec.File) {
+		varMsgs(f)
+		f.Messages = append(f.Messages, &spec.Message{Name: "Notification",
+			Oneofs: []*spec.Oneof{{Name: "primary", HasConfig: true, Discriminator: "primaryChannel"}, {Name: "fallback", HasConfig: true, Discriminator: "fallbackChannel"}},
+			Fields: []*spec.Field{spec.F("id", 1, spec.String),
+				spec.FM("email", 2, in(pkg, "VarA")).In(1).With(func(a *spec.Ann) { a.OneofValue = spec.S("email") }), spec.FM("sms", 3, in(pkg, "VarB")).In(1),
+				spec.FM("fallback_email", 4, in(pkg, "VarA")).In(2).With(func(a *spec.Ann) { a.OneofValue = spec.S("email") }), spec.FM("fallback_sms", 5, in(pkg, "VarB")).In(2).With(func(a *spec.Ann) { a.OneofValue = spec.S("sms") })}})
+	})
+	mk("same-oneof_value-in-two-messages", func(pkg string, f *spec.File) {
+		varMsgs(f)
+		one := func(name string) *spec.Message {
+			return &spec.Message{Name: name, Oneofs: []*spec.Oneof{{Name: "kind", HasConfig: true, Discriminator: "type"}},
+				Fields: []*spec.Field{spec.F("id", 1, spec.String), spec.FM("a", 2, in(pkg, "VarA")).In(1).With(func(a *spec.Ann) { a.OneofValue = spec.S("alpha") }), spec.FM("b", 3, in(pkg, "VarB")).In(1)}}
+		}
+		f.Messages = append(f.Messages, one("First"), one("Second"), &spec.Message{Name: "Both", Fields: []*spec.Field{spec.FM("first", 1, in(pkg, "First")), spec.FM("second", 2, in(pkg, "Second"))}})
+	})
+	mk("discriminator-equals-field-of-another-message", func(pkg string, f *spec.File) {
+		varMsgs(f)
+		f.Messages = append(f.Messages, &spec.Message{Name: "Other", Fields: []*spec.Field{spec.F("type", 1, spec.String), spec.F("text", 2, spec.String)}},
+			&spec.Message{Name: "Holder", Oneofs: []*spec.Oneof{{Name: "kind", HasConfig: true, Discriminator: "type", Flatten: true}},
+				Fields: []*spec.Field{spec.F("id", 1, spec.String), spec.FM("a", 2, in(pkg, "VarA")).In(1), spec.FM("b", 3, in(pkg, "VarB")).In(1), spec.FM("other", 4, in(pkg, "Other"))}})
+	})
+	mk("flatten-prefix-makes-keys-of-a-sibling-message", func(pkg string, f *spec.File) {
+		f.Messages = append(f.Messages, &spec.Message{Name: "Addr", Fields: []*spec.Field{spec.F("street", 1, spec.String)}},
+			&spec.Message{Name: "Sibling", Fields: []*spec.Field{spec.F("ship_street", 1, spec.String)}},
+			&spec.Message{Name: "Order", Fields: []*spec.Field{spec.F("id", 1, spec.String), spec.FM("shipping", 2, in(pkg, "Addr")).With(func(a *spec.Ann) { a.Flatten = spec.B(true); a.FlattenPrefix = spec.S("ship_") }), spec.FM("sibling", 3, in(pkg, "Sibling"))}})
+	})
+	mk("unwrap-in-two-messages-and-twice-used", func(pkg string, f *spec.File) {
+		f.Messages = append(f.Messages, &spec.Message{Name: "ListA", Fields: []*spec.Field{spec.F("values", 1, spec.String).Rep().With(func(a *spec.Ann) { a.Unwrap = true })}},
+			&spec.Message{Name: "ListB", Fields: []*spec.Field{spec.F("values", 1, spec.Int32).Rep().With(func(a *spec.Ann) { a.Unwrap = true })}},
+			&spec.Message{Name: "Uses", Fields: []*spec.Field{spec.FM("a", 1, in(pkg, "ListA")).MapOf(spec.String), spec.FM("a2", 2, in(pkg, "ListA")).MapOf(spec.String), spec.FM("b", 3, in(pkg, "ListB")).MapOf(spec.String)}})
+	})
+	return out
 }
